@@ -32,6 +32,9 @@ def parse (t : List String) : Option Op :=
 
 def stepLine (s : St) (t : List String) : St × String :=
   match t with
+  | ["reloc"] =>
+      -- C14: relocating the memory block is invisible: the model state has no addresses
+      (s, "ok d=[]")
   | ["new", fl, cap] =>
       -- PolymorphicVec / RelocatableVec with capacity 0: the zero-sized allocation is refused
       -- (AllocationError), no container exists; StaticVec<T, 0> is fine
